@@ -95,7 +95,11 @@ def finish(pid, args, seed, jobs, results, t0):
         v['replay'] = rep
         kid = rep.get('known')
         listed = kid and any(k['id'] == kid and k['property'] == pid for k in known.get('known', []))
-        if rep['status'] == 'confirmed':
+        if rep['status'] == 'engine_only':
+            # no native realisation exists for this world (stated in DESIGN.md): reported on the engine's evidence, marked as such
+            v['what'] += '  [engine evidence only: ' + rep.get('detail', '') + ']'
+            violations.append(v)
+        elif rep['status'] == 'confirmed':
             if listed:
                 printed_known[kid] = v
             else:
